@@ -1,13 +1,15 @@
 import os
 import re
 
-from . import streams_codec
+from . import streams_codec, streams_ugrid
 from .common import LEAN
 
 ID = 'C20'
-PROPS_MODULE = 'Refine.Props.C20'
+PROPS_MODULE = ['Refine.Props.C20', 'Refine.Props.C20Ugrid']
 STREAMS = [streams_codec.C20_MESHB, streams_codec.C20_SOLB, streams_codec.C20_ROBUST,
-           streams_codec.C20_HANG, streams_codec.C20_INDEX, streams_codec.C20_COUNT, streams_codec.C20_NAMES]
+           streams_codec.C20_HANG, streams_codec.C20_INDEX, streams_codec.C20_COUNT, streams_codec.C20_NAMES,
+           streams_ugrid.C20_MUT, streams_ugrid.C20_ROBUST, streams_ugrid.C20_INDEX, streams_ugrid.C20_COUNT,
+           streams_ugrid.C20_SWEEP]
 EXPLANATION = (
     'Obligations on the reader models (Refine/Props/C20.lean): totality; accepted_counts_fit; header_progress + '
     'header_scan_returns (every hop of the keyword scan moves strictly forward, so the scan returns on every byte '
@@ -27,10 +29,28 @@ EXPLANATION = (
     'drives the suffix dispatch of ref_import_by_extension / ref_export_by_extension / ref_part_metric with file '
     'names shorter than the longest suffix (site by-extension-short-file-name; the out-of-bounds read before the '
     'string was fixed in /repo by commit cdfd7e9, the stream is the regression guard); no Lean obligation is '
-    'attached to it.')
+    'attached to it.  '
+    'BINARY UGRID (Refine/Props/C20Ugrid.lean, faithful models decodeUgrid = ref_import_bin_ugrid and partRead = '
+    'ref_part_bin_ugrid): decode_total; accepted_counts_fit (header, nnode coordinate triples and per kind count x node_per '
+    '(+ count tags) integers fit in the bytes present: every fread is checked, sections with count <= 0 are skipped, negative '
+    'nnode is REF_FAILURE); accepted_indices_in_range_partial (indices >= 1: ref_adj_add) — the upper bound is NOT checked by '
+    'any UGRID reader: accepted_indices_in_range_counterexample(_replay) (140-byte files accepted with vertex 6 / 50000001 '
+    'of 4), part_index_unchecked_counterexample (first vertex 5 of 4 -> elements_to_send[1] on one rank; nnode = 0 -> '
+    'division by zero), part_count_overflow_counterexample (2^31-1 declared tets / 2^63-1 declared vertices overflow int / '
+    'long arithmetic before any check); accepted_indices_in_range is proved for the repaired reader variant ugridCfgFixed, '
+    'fixed_reader_roundtrip shows the repair keeps C08.  Tie: c20_ugrid_mut — truncation at every section boundary, counts '
+    ':= {-1,0,2^31-1,...}, indices := {0, nnode+1, huge, INT_MIN,...}, tags, bit flips, trailing bytes on all six names: C '
+    'status and dump == model for the static serial reader and for ref_part_by_extension at one rank wherever the model '
+    'predicts a status; c20_ugrid_robust — the same mutants through ref_import_by_extension, import+export, '
+    'ref_part_by_extension must return (10 s, 1 GiB, 300 MB touched).  Streams c20_ugrid_index / c20_ugrid_count / '
+    'c20_ugrid_sweep replay the Lean witnesses (thorough: also the mutants of those classes) and currently FAIL in the real '
+    'readers/writer: KNOWN-FINDING sites ugrid-vertex-index-unchecked, ugrid-part-count-overflow, '
+    'ugrid-export-faceid-range-sweep (findings/<site>/ has the files, the ops and the proposed repair).')
 ASSUMPTIONS = [
-    'only the binary libMeshb readers (.meshb, .solb scalar and metric) are modelled; ugrid, mapbc, text formats '
-    'are not; file-name handling of *_by_extension is exercised (c20_names) but not modelled',
+    'the binary libMeshb readers (.meshb, .solb scalar and metric) and the binary UGRID readers (serial, parallel at one '
+    'rank) are modelled; ascii ugrid, r8.ugrid, mapbc, text formats are not; file-name handling of *_by_extension is '
+    'exercised (c20_names) but not modelled; a malformed file at np >= 2 (rank 0 returns an error while the other ranks '
+    'wait for its scatter) is not exercised',
     'malloc above 1 GiB returns NULL (harness: ASan allocator cap; model: Cfg.allocCap); ref_adj growth is '
     'modelled by its request size only',
     'signed-overflow points of the C (ref_adj_add chunk, nodes[i]--, ldim*chunk) are modelled as `ub`; mutants '
@@ -52,6 +72,11 @@ def _witnesses_in_sync():
     missing = [k for k, v in streams_codec.WITNESS.items() if v not in lean]
     if missing:
         raise RuntimeError('witness bytes of checks/streams_codec.py not found in Props/C20.lean: %s' % missing)
+    text = open(os.path.join(LEAN, 'Refine', 'Props', 'C20Ugrid.lean')).read()
+    lean = set(re.findall(r'ofHex\s*"([0-9a-f]+)"', text))
+    missing = [k for k, v in streams_ugrid.WITNESS.items() if v not in lean and k != 'sweep']
+    if missing:
+        raise RuntimeError('witness bytes of checks/streams_ugrid.py not found in Props/C20Ugrid.lean: %s' % missing)
 
 
 _witnesses_in_sync()
